@@ -14,17 +14,20 @@ import (
 func init() {
 	register(&Property{
 		ID:    "C18",
-		Rules: []string{"C18-R1", "C18-R2", "C18-R3", "C18-R4"},
+		Rules: []string{"C18-R1", "C18-R2", "C18-R3", "C18-R4", "C18-R5", "C08-R8"},
 		Explain: "Decides the protocol of the channel parser as a typestate over its three channels: C18-R1 Nodes, Errors and Done are unbuffered (every send is a rendezvous, so the order a consumer observes is the producer's program order under every schedule); " +
 			"C18-R2 package parser has no go statement and no select, and sends on the three channels occur only in the exported methods of Parser; " +
 			"C18-R3 the send language of ParseStream and ParseFile (with the callback parser inlined) is N* E? D on every terminating path: no record after an error, at most one error, exactly one Done, last; " +
-			"C18-R4 a non-nil result of the callback parser (or of opening the file) is always sent on Errors.",
+			"C18-R4 a non-nil result of the callback parser (or of opening the file) is always sent on Errors; " +
+			"C18-R5 the Parser's methods parse with the receiver's own configuration, so both parsers classify lines alike; C08-R8 (shared) on the path where the open fails nothing is called on the nil file (the producer cannot die before sending the error).",
 		NotDecided:  "liveness of a consumer that stops listening (the producer then blocks by design); equality of the delivered records with the callback parser's (they are the same objects)",
 		Assumptions: []string{"an unbuffered channel send completes only when a receiver takes the value"},
 		Run: func(c *core.Ctx) {
 			ruleChanUnbuffered(c, "C18-R1")
 			ruleParserConcurrency(c, "C18-R2")
 			ruleSendLanguage(c, "C18-R3")
+			ruleParserOwnConfig(c, "C18-R5")
+			ruleNilFile(c, "C08-R8")
 			_, sites := errorChain(c.P, func(cal *ssa.Function, ci ssa.CallInstruction) (bool, string) {
 				if cal != nil {
 					if w, ok := inputSeeds[cal.String()]; ok {
@@ -235,4 +238,59 @@ func ruleSendLanguage(c *core.Ctx, rule string) {
 			c.Violate(rule, fname, "N*E?D", c.P.Pos(fn.Pos()), m, nil)
 		}
 	}
+}
+
+// ruleParserOwnConfig is C18-R5: the channel parser's methods parse with the
+// configuration the Parser was built with — the argument handed to
+// ParseStreamCallback is the receiver's config field itself, not a default or a
+// copy made elsewhere — so both parsers classify lines alike.
+func ruleParserOwnConfig(c *core.Ctx, rule string) {
+	psc := c.P.LookupFunc(parserPkg, "ParseStreamCallback")
+	pt := c.P.LookupType(parserPkg, "Parser")
+	if !requireAnchor(c, rule, "parser.ParseStreamCallback", psc != nil) || !requireAnchor(c, rule, "parser.Parser", pt != nil) {
+		return
+	}
+	cfgIdx := -1
+	for i, p := range psc.Params {
+		if strings.HasSuffix(p.Type().String(), "parser.Config") {
+			cfgIdx = i
+		}
+	}
+	n := 0
+	for _, fn := range c.P.Funcs {
+		top := fn
+		for top.Parent() != nil {
+			top = top.Parent()
+		}
+		if top.Signature.Recv() == nil || !types.Identical(derefType(top.Signature.Recv().Type()), pt) {
+			continue
+		}
+		for _, b := range fn.Blocks {
+			for _, in := range b.Instrs {
+				ci, ok := in.(ssa.CallInstruction)
+				if !ok || ci.Common().StaticCallee() != psc || cfgIdx < 0 || cfgIdx >= len(ci.Common().Args) {
+					continue
+				}
+				n++
+				how, okDirect := directSetting(ci.Common().Args[cfgIdx])
+				fname := core.FuncName(fn)
+				pos := c.P.Pos(in.Pos())
+				if okDirect && strings.HasPrefix(how, "the field ") {
+					c.Discharge(rule, fname, "config", pos, "parses with "+how+" of the receiver")
+				} else {
+					c.Violate(rule, fname, "config", pos, "the channel parser parses with "+how+", not with the configuration it was built with: with a non-default comment character it classifies lines differently from the callback parser", nil)
+				}
+			}
+		}
+	}
+	if n == 0 {
+		c.Note(rule + ": no method of Parser calls ParseStreamCallback directly")
+	}
+}
+
+func derefType(t types.Type) types.Type {
+	if p, ok := t.(*types.Pointer); ok {
+		return p.Elem()
+	}
+	return t
 }
